@@ -28,7 +28,8 @@ class Gen:
         self.driven, self.undriven = [], []
         self.seed, self.thorough = seed, thorough
         self.is_poly = dom == "Polyhedron"
-        self.recipes = [1, 2, 3] if not thorough else [1, 2, 3, 4, 0, 7]
+        # r % 8: shape (4 empty, 5 dim 3, 6 dim 0), (r / 8) % 2: NNC (Polyhedron), r / 16: 1 redundant description, 2 minimized + pending row
+        self.recipes = [1, 2, 3, 17, 34] if not thorough else [1, 2, 3, 4, 0, 7, 17, 18, 19, 33, 34, 35]
 
     def w(self, s):
         self.out.append(s)
@@ -616,12 +617,12 @@ class Gen:
         if self.is_poly:
             w("  static T* clone(const T& x) { return x.topology() == NECESSARILY_CLOSED ? (T*) new C_Polyhedron(static_cast<const C_Polyhedron&>(x)) : (T*) new NNC_Polyhedron(static_cast<const NNC_Polyhedron&>(x)); }")
             w("  static T* make(int r) { unsigned dim = cif::recipe_dim(r); Degenerate_Element k = (r % 8 == 4) ? EMPTY : UNIVERSE;")
-            w("    T* t = (r >= 8) ? (T*) new NNC_Polyhedron(dim, k) : (T*) new C_Polyhedron(dim, k);")
+            w("    T* t = ((r / 8) % 2 == 1) ? (T*) new NNC_Polyhedron(dim, k) : (T*) new C_Polyhedron(dim, k);")
         else:
             w("  static T* clone(const T& x) { return new T(x); }")
             w("  static T* make(int r) { unsigned dim = cif::recipe_dim(r); Degenerate_Element k = (r % 8 == 4) ? EMPTY : UNIVERSE;")
             w("    T* t = new T(dim, k);")
-        w("    if (r %% 8 != 0 && r %% 8 != 4 && r %% 8 != 6) cif::refine_recipe(*t, r %% 8 + %d, dim, 1 + (r %% 8) %% 3);" % (self.seed % 5))
+        w("    if (r %% 8 != 0 && r %% 8 != 4 && r %% 8 != 6) { cif::refine_recipe(*t, r %% 8 + %d, dim, 1 + (r %% 8) %% 3); cif::apply_modifier(*t, r, r %% 8 + %d, dim, 1 + (r %% 8) %% 3); }" % (self.seed % 5, self.seed % 5))
         w("    return t; }")
         w("  static int cdump(CH h, FILE* f) { return ppl_%s_ascii_dump(h, f); }" % D)
         w("  static int cok(CH h) { return ppl_%s_OK(h); }" % D)
